@@ -3,7 +3,7 @@ import FqModel.Recover
 /-! driver for C06
 
   `batch <path> <format> <f|n> <seed> <mod> <lo> <hi>` TAB `cases=<n> <obs>@<kind>*<count> …`
-  `allfmt <path> <mut> <f|n>` / `fields <path> <format> <f|n> <seed> <mod> <max>` TAB the same histogram
+  `allfmt <path> <mut> <f|n>` / `fields …` / `types <path> <format> <f|n> <seed> <mod> <dir>` TAB the same histogram
   `d <path> <mut> <format> <f|n>`  TAB `<obs>`          one decode.Decode (every panic / resource case, replays)
   `i <path> <mut> <format> <f|n>`  TAB `tree|error|panic:…|resource:…`   the interpreter path
   `core <prim> <arg> <buf bytes> <pos bits> <f|n>` TAB `ok|err:io|err:decoder|panic:…|resource:…`
@@ -61,8 +61,7 @@ def isResource (obs : String) : Bool := obs.startsWith "resource:"
 /-- keys of defect classes that are recorded as status "known" in known_findings.json. Every other panic —
     also the return of one of the 13 that were fixed in /repo — is a falsified property: PROPFAIL.
     Remove a key here when its entry is flipped to "fixed". -/
-def knownKeys : List String := ["mp4:mp4.decodeBox:nil-dereference", "elf:elf.strIndexNull:slice-bounds-out-of-range",
-  "flac:flac.flacDecode.func1:slice-bounds-out-of-range"]
+def knownKeys : List String := []
 
 def knownVerdict (obs : String) : String :=
   let key := (obs.drop 6).toString
@@ -131,6 +130,7 @@ def stepC06 (op obs : String) : String :=
   | "batch" :: _ => batchVerdict obs
   | "allfmt" :: _ => batchVerdict obs
   | "fields" :: _ => batchVerdict obs
+  | "types" :: _ => batchVerdict obs
   | ["d", _, _, _, _] => decodeVerdict obs
   | ["i", _, _, _, _] =>
     if isPanic obs then knownVerdict obs
